@@ -183,7 +183,11 @@ func textCase(in textIn, tags ...string) caseRec {
 				dr, dc = decodeRes(enc)
 			}
 		}
-		coq := fmt.Sprintf("TReport %s %s %s", fr, er.coq(ec), dr.coq(dc))
+		rawTerm := "None"
+		if er.Kind == "ok" {
+			rawTerm = "(Some " + coqHex(enc) + ")"
+		}
+		coq := fmt.Sprintf("TReport %s %s %s %s", fr, er.coq(ec), rawTerm, dr.coq(dc))
 		return caseRec{Input: in, Output: map[string]any{"encode": er, "decode": dr}, Coq: coq, Tags: tags}
 	case "decode":
 		doc, err := json.Marshal(struct {
@@ -483,7 +487,7 @@ func cmdTextforms(seed int64, n int, out, replay, tier string) {
 	} else {
 		cs = genTextforms(seed, n)
 	}
-	header := "From DS Require Import Base Decimal StreamValue TextForms CasesText.\n"
+	header := "From DS Require Import Base Decimal StreamValue TextForms JsonReportBytes CasesText.\n"
 	if err := writeCasesSharded(out, "textforms", seed, header, "text_case", "text_eval", cs, 300); err != nil {
 		fatal(err)
 	}
